@@ -70,7 +70,8 @@ def near(draw, x, lo=-12.0, hi=-1.0):
 @st.composite
 def ratio_tuple(draw, n):
     """n positive numbers with pairwise ratios in [1e-6, 1e6] and structured degeneracies"""
-    mode = draw(st.sampled_from(["generic", "generic", "pair", "triple", "near1", "two-near1", "equal", "perm1", "hier", "corner"]))
+    mode = draw(st.sampled_from(["generic", "generic", "pair", "triple", "near1", "two-near1", "equal", "perm1", "hier", "corner",
+                                    "pair-near1"]))
     base = draw(logu(1e-3, 1e3))
     xs = [base * draw(logu(1e-3, 1e3)) for _ in range(n)]
     if mode == "pair" and n >= 2:
@@ -83,6 +84,13 @@ def ratio_tuple(draw, n):
     elif mode == "two-near1" and n >= 2:
         xs[0] = draw(near(1.0))
         xs[1] = draw(near(1.0))
+    elif mode == "pair-near1" and n >= 2:
+        # a nearly equal pair that itself sits near 1, at independent distances: the expansions around y = x have
+        # their own sub-expansion around x = 1 (Fax/Fbx window 1e-2, Fa11/Fb11 window 1e-4, Ixy 1e-4)
+        xs[0] = draw(near(1.0, -8.0, -1.0))
+        xs[1] = draw(near(xs[0], -12.0, -3.0))
+        if n >= 3 and draw(st.booleans()):
+            xs[2] = draw(near(xs[0], -12.0, -3.0))
     elif mode == "equal":
         k = draw(st.integers(2, n)) if n >= 2 else 1
         for i in range(1, k):
